@@ -552,3 +552,23 @@ Example ex_handle_lengths :
   handle_decode (handle_encode (mkH 18446744073709551615 300) ++ [1; 2]) =
     Some (mkH 18446744073709551615 300, 12%nat).
 Proof. vm_compute. split; reflexivity. Qed.
+
+(** a handle that points beyond the end of the file reads as [BShort]; the correspondence driver
+    answers such handles with this lemma instead of evaluating [read_block_at] (whose [N.to_nat]
+    of an offset of 2^40 and more cannot be evaluated in unary) *)
+Lemma read_block_at_beyond_eof (file : bytes) (h : handle) :
+  blen file < h_off h + h_size h + BLOCK_TRAILER -> read_block_at file h = BShort.
+Proof.
+  intros Hlt. unfold read_block_at.
+  assert (Hb : blen (takeN (h_size h + BLOCK_TRAILER) (dropN (h_off h) file)) < h_size h + BLOCK_TRAILER).
+  { unfold takeN, dropN, blen in *. rewrite firstn_length, skipn_length.
+    unfold BLOCK_TRAILER in *.
+    assert (H1 : (Nat.min (N.to_nat (h_size h + 5)) (length file - N.to_nat (h_off h)) <= length file - N.to_nat (h_off h))%nat)
+      by apply Nat.le_min_r.
+    destruct (N.le_gt_cases (h_off h) (N.of_nat (length file))) as [Hle|Hgt].
+    - assert (H2 : N.of_nat (length file - N.to_nat (h_off h)) = N.of_nat (length file) - h_off h) by lia.
+      lia.
+    - assert (H2 : (length file - N.to_nat (h_off h) = 0)%nat) by lia.
+      rewrite H2 in *. lia. }
+  apply N.ltb_lt in Hb. rewrite Hb. reflexivity.
+Qed.
